@@ -123,3 +123,67 @@ def enclosing_function(node):
     while cur is not None and not isinstance(cur, (ast.FunctionDef, ast.AsyncFunctionDef)):
         cur = getattr(cur, "_parent", None)
     return cur
+
+
+_TS_FEAS = None
+
+
+def path_feasible(eng, p, limit=250000):
+    """Can the path condition of p hold for some valuation?  Parameter values that carry a
+    good calendar flag are restricted to real dates.  Returns False only when every
+    valuation of a complete (small enough) domain is inconsistent."""
+    global _TS_FEAS
+    import datetime as _dt
+    import itertools
+    from .. import e4_order as e4
+    from ..core import Undecided
+    from ..e3_rules import _leaf_domain
+    from ..e3_values import IntV
+    from .relspec import leaves_of, ts_sweep
+    if _TS_FEAS is None:
+        sw = ts_sweep("quick")
+        _TS_FEAS = sw[::max(1, len(sw) // 25)] + sw[-12:]
+    leaves = set()
+    for c, t in p.conds:
+        leaves_of(c, leaves)
+    if not leaves:
+        return True
+    order = sorted(leaves, key=repr)
+    doms = []
+    size = 1
+    for l in order:
+        if l == ("ts",):
+            dm = _TS_FEAS
+        else:
+            dm = _leaf_domain(eng.interp, p.st, l)
+            if dm is None:
+                return True
+        doms.append(dm)
+        size *= max(1, len(dm))
+        if size > limit:
+            return True
+    try:
+        f = e4.compile_path(p.conds, [], order)
+    except Undecided:
+        return True
+    # validity constraints of dated parameters
+    index = {l: i for i, l in enumerate(order)}
+    cons = []
+    for o in p.st.heap.values():
+        if o.fresh or o.cal not in ("REAL", "CHECKED"):
+            continue
+        li = [index.get(("attr", o.sym, f_)) for f_ in ("year", "month", "day")]
+        if li[1] is not None and li[2] is not None:
+            cons.append(li)
+    for combo in itertools.product(*doms):
+        a = list(combo)
+        ok = True
+        for yi, mi, di in cons:
+            try:
+                _dt.date(int(a[yi]) if yi is not None else 2000, int(a[mi]), int(a[di]))
+            except (ValueError, TypeError):
+                ok = False
+                break
+        if ok and f(a) is not None:
+            return True
+    return False
